@@ -38,6 +38,21 @@ claimed = {
    note="Assumed: a session's closed flag and remote address are stable during one call; sync.Map atomic; rand.Intn in range; sort.Strings permutes; md5/hash uninterpreted; getPositiveSequence / newConsistenceInstance / hash trusted (atomics, sync.Once). The stale consistent-hash ring and selectSession returning a closed session were genuine defects, repaired (fix: commits). Known finding (open): a reopened session does not re-announce the client's resources (RM side) - structural, KNOWN-FINDING line. Behaviour over time of a real reconnect is not decided.",
    ref="DESIGN.md §3 C19",
    technique="contract-based deductive verification: VCs from go/ssa by symbolic execution, sync.Map.Range cut by quantified invariants over a ghost visited-set, discharged by cvc5/z3"),
+ "C10": dict(
+   text="Deductive proof over the real SSA of BaseUndoLogManager.Undo, DeleteUndoLog, InsertUndoLogWithSqlConn, insertUndoLogWithGlobalFinished and UndologRecord.CanUndo against assumed database/sql contracts in which every statement (Conn, BeginTx, Prepare, Query, Next/Scan/Err, Exec, Commit, Rollback, Close) may fail at any position: Undo ends its local transaction on every path (committed or rolled back - never left open), returns nil only after a successful COMMIT (or after the no-op commit for a marker row with nothing executed), every failing step surfaces as a non-nil error (so a failed attempt is rolled back as a whole: no partial compensation), all executors and the log delete / marker insert run on the one connection inside that one transaction, an existing undo-log row is deleted and a missing one is replaced by a GlobalFinished marker for exactly this xid/branch (the marker that makes the late phase-one undo-log insert collide), never both, and a marker row is not undone again (CanUndo).",
+   note="Assumed (spec/ext_sql.gvs): the database/sql API contracts with ghost transaction state; the database makes a committed transaction durable and a rolled-back one void, and enforces the undo_log unique key (that the late phase-one insert then fails is the database's doing; that the failure aborts phase one is C02). Idempotence over histories is a pencil step over: first run deletes the row / second run finds none and inserts the marker / later runs see the marker and do nothing. Trusted: undo-log parsing (decodeUndoLogCtx, getRollbackInfo, deserializeBranchUndoLog), table-meta cache, factor.GetUndoExecutor, executor bodies (C09). Two genuine defects repaired (fix: commits).",
+   ref="DESIGN.md §3 C10",
+   technique="contract-based deductive verification: VCs from go/ssa by symbolic execution incl. deferred closures, ghost transaction/resource state over assumed database/sql contracts, loop invariants, discharged by cvc5/z3"),
+ "C01": dict(
+   text="Deductive proof over the real SSA of the rollback skeleton: ATSourceManager.BranchRollback answers PhaseTwo_Rollbacked iff RunUndo returned nil and never reports success or a committed status after an undo failure, addresses exactly the requested xid/branch; Undo (as in C10) applies the branch's SQL undo logs in reverse order of execution (BranchUndoLog.Reverse proved to reverse the slice in place, quantified loop invariant), each through its executor on the rollback connection, deletes this branch's undo-log row in the same transaction and releases connection, statement and rows on every path.",
+   note="NOT proved: that each executor's generated SQL text restores the row contents (needs SQL/MySQL semantics, cf. C18) - buildUndoSQL and the images' construction in phase one are trusted; 'every table ends with exactly the contents' is therefore decided only up to 'each recorded statement is compensated once, in reverse order, atomically with the log delete'. Trusted: database/sql contracts (spec/ext_sql.gvs), undo-log parsing, table-meta cache. One genuine defect repaired (connection leak, fix: commit).",
+   ref="DESIGN.md §3 C01",
+   technique="contract-based deductive verification: VCs from go/ssa by symbolic execution, quantified loop invariants for the in-place reversal, ghost resource counters over assumed database/sql contracts, discharged by cvc5/z3"),
+ "C09": dict(
+   text="Deductive proof over the real SSA of BaseExecutor.dataValidationAndGoOn (three-way decision for every outcome of the three comparisons and of the current-row query: current==after => go on; current==before => stop with success and no write; neither => error 'dirty'; comparison/query errors propagate; which images are compared is asserted at each call), IsRecordsEquals' nil/row-count skeleton, the three undo-executor constructors (validator present and bound to this undo log and to the image that holds the rows) and the three ExecuteOn methods (no statement is prepared or executed before the validation ran on the same connection; its error is returned unchanged; a stop or error issues no write). With C10's failure-surfaces and C01's status-truthful this gives: dirty row => no compensating write, undo log kept (transaction rolled back), failure reported.",
+   note="Abstract: row equality itself (compareRows / rowListToMap / DeepEqual use reflection, fmt and float64 conversion - outside the subset; DeepEqual compares integers through float64, so two 64-bit values beyond 2^53 that differ slightly compare equal - noted, not decided here), queryCurrentRecords' SQL text and scanning, buildUndoSQL. Data validation switched off by configuration skips the check by design (validation-off clause). One genuine defect repaired: insert and delete executors never validated (fix: commit).",
+   ref="DESIGN.md §3 C09",
+   technique="contract-based deductive verification: VCs from go/ssa by symbolic execution, ghost call records for ordering (validated-first), discharged by cvc5/z3"),
 }
 na = {
  "C18": "relates generated SQL text executed by MySQL to the rows another SQL text changed; needs a formal semantics of MySQL DML and of the arana-db parser AST, which no contract within reach of a self-written VC generator can express (DESIGN.md §4)",
